@@ -30,6 +30,7 @@ func runC15(r *Report) {
 	r.Explanation = "S1 analysis of the generator for every document the loader accepts (no corpus). optional-deref: kin-openapi models absent optional members as nil pointers/interfaces; the table of optional sources is derived mechanically from the openapi3 type declarations (struct fields, map and slice elements of pointer or interface type) minus the loader-guaranteed *Ref.Value; on SSA every dereference of a value loaded from an optional source (field access, load, method call, passing it to a repo function that dereferences the parameter unconditionally — interprocedural fixed point) must be dominated by a nil test of that value. assert-ok: no single-result type assertion. panic-confined: explicit panic sites are reachable from the entry points only through text/template method invocation (whose safeCall turns panics into errors). bounds: every index/slice site the compiler's prove pass could not discharge matches a checked idiom. exit-code: main turns a non-nil error into log.Fatal*/os.Exit(!=0)."
 	r.Rule("C15/optional-deref", "a value loaded from an optional kin-openapi member is nil-tested before it is dereferenced (directly or by a callee that dereferences its parameter unconditionally)")
 	r.Rule("C15/schema-ref-phase", "in functions reachable from generator.NewSchema (component schemas still being filled in name order) a Schema method that follows Ref and calls a method on the target's Type (Kind) is guarded by <x>.Ref == nil")
+	r.Rule("C15/template-nil-chain", "typed templates (dot types from the ExecuteTemplate call sites and {{template}} actions, steps resolved with go/types): a field chain that walks through an optional pointer (one that Go code or a template tests for nil, or a method with `return nil`) stands under an if/with/and guard of exactly that prefix")
 	r.Rule("C15/assert-ok", "no single-result type assertion on the generation path")
 	r.Rule("C15/panic-confined", "explicit panic() sites are reachable only through template method invocation, never by a plain Go call path from Generate/main")
 	r.Rule("C15/bounds", "every index/slice expression of the generator is proven by the compiler's prove pass or matches a checked idiom")
@@ -65,6 +66,7 @@ func runC15(r *Report) {
 	c.refValuePhase()
 	c.refRecursion()
 	c.schemaRefPhase()
+	c.templateNilChains()
 }
 
 func fnPkg(fn *ssa.Function) *ssa.Package {
